@@ -157,6 +157,12 @@ func (h *Handler) send(ctx context.Context, conn *net.UDPConn, queue chan data, 
 				}
 				h.onError(conn, e)
 			}
+			if len(body) > maxBodyLength {
+				// it cannot be carried by one datagram: tell the caller instead of
+				// slicing past the buffer, which would end the whole UDP service
+				index |= 0x8000
+				body = convert.ToUnsafeBytes("response too large for a UDP datagram")
+			}
 			header := makeHeader(len(body), index)
 			copy(buffer[:], header[:])
 			copy(buffer[8:], body)
